@@ -1,6 +1,6 @@
 (* Engine/AbsInstance.v — the abstract interpreter on the regenerated layouts and the independent specification *)
 From Coq Require Import Lia Bool Strings.String.
-From SwiftMT Require Import Base.Bytes Engine.Layout Engine.Tokens Engine.Regex Engine.Abs Engine.AbsSound Engine.Total Engine.TotalInstance Engine.Facts Engine.Instance Family.Model Family.Instance.
+From SwiftMT Require Import Base.Bytes Engine.Layout Engine.Tokens Engine.Regex Engine.Abs Engine.Defs Family.Model Family.Defs.
 From SwiftMT Require Import gen.Families gen.Specs.
 Local Open Scope string_scope.
 Local Open Scope list_scope.
